@@ -166,7 +166,10 @@ func (c *cancelCtx) propagate(s *Sched, t *Task) {
 		pr := &RecvC[struct{}]{C: pv}
 		cr := &RecvC[struct{}]{C: cv}
 		if Select(false, pr, cr) == 0 {
-			_, me := cur()
+			s2, me := cur()
+			// waking up and cancelling the child are two things: the goroutine is made
+			// runnable by the parent's cancellation, the child is cancelled when it runs
+			s2.yield(me, opSimple{"propagate-cancel"})
 			me.tick(kCancel, c.id, 0)
 			c.cancel(false, pc.err, &me.st)
 		}
